@@ -60,6 +60,16 @@ def flatten(l):
     return list(iflatten(l))
 
 
+def as_lists(array):
+    """ Rows handed in as tuples (a list of tuples from a database driver, a tuple of cells) are an
+    array like lists of cells are - iflatten takes both alike. """
+    if isinstance(array, tuple):
+        array = list(array)
+    if isinstance(array, list) and any(isinstance(row, tuple) for row in array):
+        array = [list(row) if isinstance(row, tuple) else row for row in array]
+    return array
+
+
 def plain_number(number):
     """ The number as a plain int or float.  A host may hand in instances of subclasses (a member of an
     IntEnum, a numpy.float64): the statistics module converts its result back to the class of the
